@@ -55,8 +55,10 @@ class GraphPart(Part):
 FILES = {
     "f1.cfg": "interface a\n ip address 10.1.2.3 255.255.255.0\n neighbor 2001:db8::1 x\n"
               " route 138.7.6.5/32 via 10.1.2.4\n",
+    # 32.1.13.184 is 0x20010db8: an IPv4 address that is bit for bit the start of the IPv6 addresses
+    # of the other files (and ::a01:203 / 10.1.2.3 the other way round)
     "f2.cfg": "ip route 10.1.2.4 255.255.255.255 138.7.6.5\nipv6 route 2001:db8::2/128 2001:db8::1\n"
-              "ntp server 10.129.0.1\n",
+              "ntp server 10.129.0.1\nntp server 32.1.13.184\nntp server 32.1.13.185\npeer ::a01:203\n",
     "f3.cfg": "peer 138.7.6.5\npeer 10.1.2.3\npeer 2001:db8:8000::1\npeer 2001:db8::2\n",
 }
 
@@ -227,6 +229,7 @@ JOBS = [
     {"undo": True},
     {"salt": "otherSalt"},
     {"nets": ["11.11.0.0/16"], "undo": True, "B": 8},
+    {"nets": ["20.20.0.0/16"], "explicit_none": True},
     {"entry": "main", "argv": ["--preserve-addresses", "11.11.0.0/16,138.7.0.0/16"]},
     {"entry": "main", "argv": []},
 ]
@@ -248,12 +251,17 @@ def run_job(job, root, tag):
         with seams.capture_logs(), seams.capture_stdio():
             main(["-a", "-s", "saltForTest", "-i", ind, "-o", outd] + list(job["argv"]))
         return (seams.read_tree(outd).get("f.cfg") or b"").decode()
+    # options that a job does not set are left out of the call (the usual way to use the API), except in
+    # the job that passes None explicitly
+    kw = {}
+    if job.get("nets") is not None or job.get("explicit_none"):
+        kw["preserve_networks"] = None if job.get("nets") is None else list(job["nets"])
+    if job.get("prefixes") is not None or job.get("explicit_none"):
+        kw["preserve_prefixes"] = None if job.get("prefixes") is None else list(job["prefixes"])
     with seams.capture_logs():
         fa = FileAnonymizer(anon_pwd=False, anon_ip=not job.get("undo"), undo_ip_anon=bool(job.get("undo")),
                             salt=job.get("salt", "saltForTest"),
-                            preserve_networks=None if job.get("nets") is None else list(job["nets"]),
-                            preserve_prefixes=None if job.get("prefixes") is None else list(job["prefixes"]),
-                            preserve_suffix_v4=job.get("B", 0), preserve_suffix_v6=job.get("B", 0))
+                            preserve_suffix_v4=job.get("B", 0), preserve_suffix_v6=job.get("B", 0), **kw)
         out = io.StringIO()
         fa.anonymize_io(io.StringIO(JOB_TEXT), out)
     return out.getvalue()
